@@ -204,10 +204,10 @@ def _freshInterpreter(argv: list, hashSeed: str = "0", timeout: float = 900) -> 
 # --------------------------------------------------------------------------
 TIERS = {
     # prop: tier: (runs, wall cap s, per-run timeout s, workers)
-    "C17": {"quick": (6000, 240, 60, 16), "thorough": (400000, 1500, 60, 16)},
-    "C18": {"quick": (6000, 300, 60, 16), "thorough": (400000, 2400, 60, 16)},
-    "C14": {"quick": (3000, 300, 120, 16), "thorough": (200000, 2400, 120, 16)},
-    "C01": {"quick": (48, 600, 900, 16), "thorough": (800, 5400, 900, 16)},
+    "C17": {"quick": (6000, 300, 60, 16), "thorough": (400000, 2400, 60, 16)},
+    "C18": {"quick": (12000, 400, 120, 16), "thorough": (400000, 3600, 120, 16)},
+    "C14": {"quick": (6000, 300, 120, 16), "thorough": (300000, 3000, 120, 16)},
+    "C01": {"quick": (96, 1200, 900, 16), "thorough": (1600, 7200, 900, 16)},
 }
 
 
